@@ -211,7 +211,11 @@ func (core *JApiCore) ProcessAllOf() *jerr.JApiError {
 		return je
 	}
 
-	return core.processResponseAllOf()
+	if je := core.processResponseAllOf(); je != nil {
+		return je
+	}
+
+	return core.processJsonRpcAllOf()
 }
 
 func (core *JApiCore) processUserTypes() *jerr.JApiError {
@@ -333,6 +337,26 @@ func (core *JApiCore) processResponseAllOf() *jerr.JApiError {
 					if err != nil {
 						return resp.Body.Directive.BodyError(err.Error())
 					}
+				}
+			}
+		}
+		return nil
+	}))
+}
+
+func (core *JApiCore) processJsonRpcAllOf() *jerr.JApiError {
+	return adoptError(core.catalog.Interactions.Each(func(_ catalog.InteractionID, v catalog.Interaction) error {
+		if ri, ok := v.(*catalog.JsonRpcInteraction); ok {
+			if p := ri.Params; p != nil && p.Schema != nil && p.Schema.Notation == notation.SchemaNotationJSight {
+				err := core.processSchemaContentJSightAllOf(p.Schema.ContentJSight, p.Schema.UsedUserTypes)
+				if err != nil {
+					return p.Directive.BodyError(err.Error())
+				}
+			}
+			if r := ri.Result; r != nil && r.Schema != nil && r.Schema.Notation == notation.SchemaNotationJSight {
+				err := core.processSchemaContentJSightAllOf(r.Schema.ContentJSight, r.Schema.UsedUserTypes)
+				if err != nil {
+					return r.Directive.BodyError(err.Error())
 				}
 			}
 		}
